@@ -124,6 +124,44 @@ theorem idct_variants_differ_outside_lo (v : Int) (h : -896 ≤ v ∧ v ≤ -513
     all_goals omega
   rw [a, b]; exact ⟨rfl, rfl⟩
 
+/-! ### linking the u32 code of the portable last step to `finalWrap` -/
+
+/-- signed reading of a u32 (what `_mm256_srai_epi32` / `sign_extend_rshift_u32` see) -/
+def s32 (y : UInt32) : Int :=
+  if y.toNat < 2147483648 then (y.toNat : Int) else (y.toNat : Int) - 4294967296
+
+/-- `(y >> 18) & 1023` (LOGICAL shift, as in decode_idct_default.wuffs) is the arithmetic
+shift of the signed value, modulo 1024: the 4 bits the logical shift gets wrong are masked off. -/
+theorem logical_shift_mask_eq (y : UInt32) :
+    ((y >>> 18) &&& 1023).toNat = ((s32 y) / 262144 % 1024).toNat := by
+  have h1 : ((y >>> 18) &&& 1023).toNat = (y.toNat / 262144) % 1024 := by
+    rw [UInt32.toNat_and, UInt32.toNat_shiftRight]
+    have : (1023 : UInt32).toNat = 2 ^ 10 - 1 := by decide
+    rw [this, Nat.and_two_pow_sub_one_eq_mod, Nat.shiftRight_eq_div_pow]
+    rfl
+  rw [h1]
+  have hy := y.toNat_lt
+  unfold s32
+  split <;> omega
+
+/-- the portable code's last expression, on the u32 accumulator `x`, is `finalWrap` of the
+exact (signed, rounded, arithmetically shifted) sample -/
+theorem portable_final_step (x : UInt32) :
+    clampTab ((x + 131072) >>> 18) = finalWrap (s32 (x + 131072) / 262144) := by
+  unfold clampTab finalWrap
+  rw [logical_shift_mask_eq]
+
+/-- Both variants' last step on the same 32-bit accumulator: if the rounded, shifted sample is
+inside −512..511 the portable table lookup and the AVX2 saturating packs give the same byte. -/
+theorem final_step_agree (x : UInt32)
+    (h : -512 ≤ s32 (x + 131072) / 262144 ∧ s32 (x + 131072) / 262144 ≤ 511) :
+    clampTab ((x + 131072) >>> 18) = finalSat (s32 (x + 131072) / 262144) := by
+  rw [portable_final_step]
+  exact idct_variants_agree_in_range _ h
+
+example : -512 ≤ s32 ((0 : UInt32) + 131072) / 262144 ∧ s32 ((0 : UInt32) + 131072) / 262144 ≤ 511 := by
+  decide
+
 /-- non-vacuity: the range hypothesis is satisfiable at both ends, and 512 is already outside -/
 example : finalWrap 511 = finalSat 511 ∧ finalWrap (-512) = finalSat (-512) :=
   ⟨idct_variants_agree_in_range 511 (by omega), idct_variants_agree_in_range (-512) (by omega)⟩
